@@ -373,6 +373,24 @@ class _FPCore2FPy:
 
         return self._visit(e.body, _Ctx(env=env, props=ctx.props, stmts=ctx.stmts))
 
+    def _loop_condition(self, cond: fpc.Expr, env, ctx: _Ctx, body: list[Stmt]) -> tuple[Expr, list[Stmt]]:
+        """The test of a `while` loop over *cond*, and the statements to run at
+        the end of every trip.  A condition that needs statements of its own (a
+        `let`, an `if`) is evaluated into a variable ahead of the loop and
+        again after each trip; emitted once, before the loop, it would never
+        be recomputed."""
+        pre: list[Stmt] = []
+        cond_e = self._visit(cond, _Ctx(env=env, props=ctx.props, stmts=pre))
+        if not pre:
+            return cond_e, []
+        flag = self.gensym.fresh('c')
+        ctx.stmts.extend(pre)
+        ctx.stmts.append(Assign(flag, None, cond_e, None))
+        again: list[Stmt] = []
+        cond_again = self._visit(cond, _Ctx(env=env, props=ctx.props, stmts=again))
+        again.append(Assign(flag, None, cond_again, None))
+        return Var(flag, None), again
+
     def _visit_whilestar(self, e: fpc.WhileStar, ctx: _Ctx) -> Expr:
         env = ctx.env
         for var, init, _ in e.while_bindings:
@@ -386,17 +404,17 @@ class _FPCore2FPy:
             ctx.stmts.append(stmt)
 
         # compile condition
-        cond_ctx = _Ctx(env=env, props=ctx.props, stmts=ctx.stmts)
-        cond_e = self._visit(e.cond, cond_ctx)
+        stmts: list[Stmt] = []
+        cond_e, recheck = self._loop_condition(e.cond, env, ctx, stmts)
 
         # create loop body
-        stmts: list[Stmt] = []
         update_ctx = _Ctx(env=env, props=ctx.props, stmts=stmts)
         for var, _, update in e.while_bindings:
             # compile value and update loop variable
             update_e = self._visit(update, update_ctx)
             stmt = Assign(env[var], None, update_e, None)
             stmts.append(stmt)
+        stmts.extend(recheck)
 
         # append while statement
         while_stmt = WhileStmt(cond_e, StmtBlock(stmts), None)
@@ -419,12 +437,11 @@ class _FPCore2FPy:
             ctx.stmts.append(stmt)
 
         # compile condition
-        cond_ctx = _Ctx(env=env, props=ctx.props, stmts=ctx.stmts)
-        cond_e = self._visit(e.cond, cond_ctx)
+        stmts: list[Stmt] = []
+        cond_e, recheck = self._loop_condition(e.cond, env, ctx, stmts)
 
         # create loop body
         loop_env = dict(env)
-        stmts: list[Stmt] = []
         update_ctx = _Ctx(env=env, props=ctx.props, stmts=stmts)
         for var, _, update in e.while_bindings:
             # compile value
@@ -441,6 +458,7 @@ class _FPCore2FPy:
             t = loop_env[var]
             stmt = Assign(v, None, Var(t, None), None)
             stmts.append(stmt)
+        stmts.extend(recheck)
 
         # append while statement
         while_stmt = WhileStmt(cond_e, StmtBlock(stmts), None)
